@@ -721,7 +721,7 @@ ensures
 before `let Some(parent_info) = self.parents.get_mut(&hash)`
         let ghost pre = *self;
         proof { self.lemma_bounds(Pending::Nothing); }
-before `if self.sent_safe_to_notar.contains(&hash) {`
+after `*parent_info = ParentStatus::Certified;`
         let ghost mid = *self;
         proof {
             if pre.s2n_inv(false) {
